@@ -1,6 +1,7 @@
 package main
 
 import (
+	"go/token"
 	"fmt"
 	"go/types"
 	"strings"
@@ -167,18 +168,8 @@ func c20Run(p *Prog, r *Report) {
 	d := sc.Call.Value
 	// d is element of detectors param (Params[2]) at range index
 	okRange := false
-	if u, ok := d.(*ssa.UnOp); ok {
-		if ia, ok := u.X.(*ssa.IndexAddr); ok && ia.X == ssa.Value(run.Params[2]) {
-			if bo, ok := ia.Index.(*ssa.BinOp); ok {
-				if ph, ok := bo.X.(*ssa.Phi); ok {
-					for _, e := range ph.Edges {
-						if k, ok := constInt(e); ok && k == -1 {
-							okRange = true
-						}
-					}
-				}
-			}
-		}
+	if coll, ok := fullScanElement(d); ok && coll == ssa.Value(run.Params[2]) {
+		okRange = true
 	}
 	r.Check(okRange, "D2-once", fa.key+":range-all", p.Pos(sc.Pos()), "for _, d := range detectors", "the loop does not range over every enabled detector from the first")
 	// inner loop check: Scan's innermost loop header is the detectors loop
@@ -373,6 +364,30 @@ func c20Validate(p *Prog, r *Report) {
 	}
 }
 
+// rootParamOrLoad: the value a field chain starts from (loads and field selections peeled).
+func rootParamOrLoad(v ssa.Value) ssa.Value {
+	for d := 0; d < 8; d++ {
+		switch x := v.(type) {
+		case *ssa.UnOp:
+			if x.Op != token.MUL {
+				return v
+			}
+			if _, isFA := x.X.(*ssa.FieldAddr); isFA {
+				v = x.X
+				continue
+			}
+			return v
+		case *ssa.FieldAddr:
+			v = x.X
+		case *ssa.Field:
+			v = x.X
+		default:
+			return v
+		}
+	}
+	return v
+}
+
 func c20Index(p *Prog, r *Report) {
 	nw := p.Func("packageindex", "New")
 	if nw == nil {
@@ -380,10 +395,22 @@ func c20Index(p *Prog, r *Report) {
 		return
 	}
 	fa := newFA(p, r, nw)
+	// the URL: toPURL(pkg) — whose body is p.Extractor.ToPURL(p) — or that call written out in New itself
+	ownExtractorURL := func(c *ssa.Call, pkg ssa.Value) bool {
+		return c.Call.IsInvoke() && c.Call.Method.Name() == "ToPURL" && len(c.Call.Args) == 1 && loadsField(c.Call.Value, "Package", "Extractor") &&
+			c.Call.Args[0] == pkg && rootParamOrLoad(c.Call.Value) == rootParamOrLoad(pkg)
+	}
 	var tp *ssa.Call
+	direct := false
 	forEachInstr(nw, func(_ *ssa.BasicBlock, _ int, in ssa.Instruction) {
-		if c, ok := in.(*ssa.Call); ok && refOf(c.Common()).is(fp("packageindex"), "", "toPURL") {
+		c, ok := in.(*ssa.Call)
+		if !ok {
+			return
+		}
+		if refOf(c.Common()).is(fp("packageindex"), "", "toPURL") {
 			tp = c
+		} else if tp == nil && c.Call.IsInvoke() && c.Call.Method.Name() == "ToPURL" && len(c.Call.Args) == 1 && ownExtractorURL(c, c.Call.Args[0]) {
+			tp, direct = c, true
 		}
 	})
 	if tp == nil {
@@ -391,21 +418,25 @@ func c20Index(p *Prog, r *Report) {
 		return
 	}
 	pkg := tp.Call.Args[0]
-	// toPURL body: p.Extractor.ToPURL(p)
-	tf := p.Func("packageindex", "toPURL")
-	okT := false
-	if tf != nil {
-		forEachInstr(tf, func(_ *ssa.BasicBlock, _ int, in ssa.Instruction) {
-			if c, ok := in.(*ssa.Call); ok && c.Call.IsInvoke() && c.Call.Method.Name() == "ToPURL" && loadsField(c.Call.Value, "Package", "Extractor") && c.Call.Args[0] == ssa.Value(tf.Params[0]) {
-				for _, ret := range returnsOf(tf) {
-					if retVal(ret, 0) == ssa.Value(c) {
-						okT = true
+	if direct {
+		r.OK("D4-index-key", "packageindex.toPURL:body", p.Pos(tp.Pos()), "p.Extractor.ToPURL(p), written out in New")
+	} else {
+		// toPURL body: p.Extractor.ToPURL(p)
+		tf := p.Func("packageindex", "toPURL")
+		okT := false
+		if tf != nil {
+			forEachInstr(tf, func(_ *ssa.BasicBlock, _ int, in ssa.Instruction) {
+				if c, ok := in.(*ssa.Call); ok && c.Call.IsInvoke() && c.Call.Method.Name() == "ToPURL" && loadsField(c.Call.Value, "Package", "Extractor") && c.Call.Args[0] == ssa.Value(tf.Params[0]) {
+					for _, ret := range returnsOf(tf) {
+						if retVal(ret, 0) == ssa.Value(c) {
+							okT = true
+						}
 					}
 				}
-			}
-		})
+			})
+		}
+		r.Check(okT, "D4-index-key", "packageindex.toPURL:body", p.Pos(tp.Pos()), "p.Extractor.ToPURL(p)", "toPURL no longer asks the package's own extractor for the URL of that package")
 	}
-	r.Check(okT, "D4-index-key", "packageindex.toPURL:body", p.Pos(tp.Pos()), "p.Extractor.ToPURL(p)", "toPURL no longer asks the package's own extractor for the URL of that package")
 	// skip only under purl == nil: the loop's continue edges
 	hdr := loopHeaderOf(tp.Block())
 	nonNil, _ := guardEdges(nw, condNonNil(func(v ssa.Value) bool { return v == ssa.Value(tp) }))
@@ -433,18 +464,45 @@ func c20Index(p *Prog, r *Report) {
 		s, fn, base, ok := fieldOf(loadAddr(v))
 		return ok && s == "PackageURL" && fn == f && base == ssa.Value(tp)
 	}
-	okKey := isPurlField(store.Key, "Name")
-	okOuter := false
-	if lk, ok := store.Map.(*ssa.Lookup); ok && isPurlField(lk.Index, "Type") {
-		okOuter = true
+	// innerMap: v is the map of the URL's type — pkgMap[url.Type], read directly or through a local that
+	// holds it (and that, when the type is new, holds the fresh map stored under pkgMap[url.Type])
+	var innerMap func(v ssa.Value, depth int) bool
+	innerMap = func(v ssa.Value, depth int) bool {
+		if depth > 4 {
+			return false
+		}
+		switch x := v.(type) {
+		case *ssa.Lookup:
+			return isPurlField(x.Index, "Type")
+		case *ssa.Extract:
+			if lk, ok := x.Tuple.(*ssa.Lookup); ok && x.Index == 0 {
+				return isPurlField(lk.Index, "Type")
+			}
+		case *ssa.Phi:
+			for _, e := range x.Edges {
+				if !innerMap(e, depth+1) {
+					return false
+				}
+			}
+			return len(x.Edges) > 0
+		case *ssa.MakeMap:
+			stored := false
+			forEachInstr(nw, func(_ *ssa.BasicBlock, _ int, in ssa.Instruction) {
+				if mu, ok := in.(*ssa.MapUpdate); ok && mu.Value == ssa.Value(x) && isPurlField(mu.Key, "Type") {
+					stored = true
+				}
+			})
+			return stored
+		}
+		return false
 	}
+	okKey := isPurlField(store.Key, "Name")
+	okOuter := innerMap(store.Map, 0)
 	// the appended-to slice is the same bucket
 	okBucket := false
 	if c, _ := callValue(store.Value); c != nil {
-		if lk, ok := c.Call.Args[0].(*ssa.Lookup); ok && isPurlField(lk.Index, "Name") {
-			if lk2, ok := lk.X.(*ssa.Lookup); ok && isPurlField(lk2.Index, "Type") {
-				okBucket = true
-			}
+		if lk, ok := c.Call.Args[0].(*ssa.Lookup); ok && isPurlField(lk.Index, "Name") && innerMap(lk.X, 0) {
+			okBucket = true
 		}
 	}
 	r.Check(okKey && okOuter && okBucket, "D4-index-key", fa.key+":key", p.Pos(store.Pos()), "pkgMap[url.Type][url.Name] = append(pkgMap[url.Type][url.Name], pkg)", "the package is not stored under the type and name of its own package URL (e.g. the package's display name): GetSpecific(url.Name, url.Type) misses it")
@@ -471,6 +529,6 @@ func c20Index(p *Prog, r *Report) {
 
 // c20IndexSkips: audited decisions that keep a package out of the index.
 var c20IndexSkips = []string{
-	"builtin.len(param0) <= (φ:int+1:int)",
-	"nil:*github.com/google/osv-scalibr/purl.PackageURL == packageindex.toPURL(param0[(φ:int+1:int)])",
+	"range-end: param0",
+	"extractor.Extractor.ToPURL(param0[ι].Extractor,param0[ι]) == nil:*github.com/google/osv-scalibr/purl.PackageURL",
 }
